@@ -15,7 +15,7 @@ import ast
 
 import sympy as sp
 
-from ..core import AnchorMissing, Check, Undecided, calls_in, dotted, kwarg, src, own_nodes
+from ..core import AnchorMissing, Check, Undecided, calls_in, dotted, kwarg, src, own_nodes, slice_src
 from ..flow import CFG
 from ..terms import Extractor, ITE, is_zero
 
@@ -258,7 +258,7 @@ def rules(chk: Check) -> None:
     for n_ in own_nodes(f_fa.node):
         if isinstance(n_, ast.Assign) and isinstance(n_.value, ast.Subscript) and len(n_.targets) == 1 \
                 and isinstance(n_.targets[0], ast.Name):
-            sl = " ".join(src(n_.value.slice).split())
+            sl = slice_src(n_.value.slice)
             if sl in ("-1", ":, -1"):
                 last.add(n_.targets[0].id)
             elif sl in (":-1", ":, :-1"):
